@@ -824,6 +824,20 @@ impl SvgElement {
                     || value.contains(ELREF_ID_PREFIX)
                     || value.contains(ELREF_PREVIOUS))
         }
+        // Elements are registered before their position is resolved (so forward
+        // references can find them); such an element still carries svgdx position
+        // shorthands and no native x/y. Defaulting those to 0 would silently
+        // place anything positioned relative to it at the origin, so report it
+        // as not ready (causing a retry) instead.
+        if let Some(attr) = ["xy", "cxy", "xy1", "xy2"]
+            .iter()
+            .find(|a| self.has_attr(a))
+        {
+            return Err(SvgdxError::MissingBoundingBox(format!(
+                "'{attr}' position of <{}> not resolved yet",
+                self.name
+            )));
+        }
         Ok(match self.name.as_str() {
             "point" | "text" => {
                 let x = self.attrs.get("x").unwrap_or(&zstr);
